@@ -90,6 +90,12 @@ check("C04", "model_checking",
       "TLA+ reference semantics enumerated by TLC; spec->impl replay comparing compile-time and run-time evaluation, CPython as third voter",
       "DESIGN.md section 6 C04")
 
+check("C01", "translation_validation",
+      "ErgProg.tla is an operational reference semantics of the fragment: its state machine appends statements (integer literals incl. 2**31/2**63/2**64 boundaries, floats, strings with quotes/backslashes/braces, arithmetic, comparisons, interpolation, if!, for!/while! loops, user functions incl. pattern, lambda and default-argument functions, lists, assertions, tuple patterns) and maintains the environment and the printed output the program must have (Python semantics through PyVal/BigInt). TLC enumerates the literal x literal x operator grid exhaustively (11 literals x 11 operators) and simulates programs of up to 14 statements. Each program is compiled in-process by the real compiler and executed; stdout and the uncaught exception class must equal the specification's. An independent Python translation run by CPython is the third voter: a program is judged only when specification and CPython agree.",
+      "Trusted: TLC; ErgProg.tla/PyVal.tla (cross-checked against CPython on every program); the renderers in py/verif/ergprog.py; only programs the compiler accepts are judged.",
+      "TLA+ operational semantics enumerated/simulated by TLC; generated programs compiled and run, output compared with the spec and a CPython rendering",
+      "DESIGN.md section 6 C01")
+
 NOT_APPLICABLE = {
     "C16": "static comparison of opcode/magic tables with external ground truth: no state or behaviour for a TLA+ specification to constrain (DESIGN.md section 7)",
     "C27": "data audit of ~150 declaration files against installed interpreters/typeshed: no behaviour to model in TLA+ (DESIGN.md section 7)",
